@@ -165,7 +165,18 @@ func oneCase(c *kit.Case, p params) {
 		xc = randomXlatCfg(rng, p.NumReqs)
 		cfg = xc.stackCfg()
 	} else {
-		cfg = sim.RandomStackCfg(rng, sim.GenOpts{NumReqs: p.NumReqs, AllowDRAM: rng.Intn(3) == 0, AllowBanked: true, MaxDrivers: 3, RspStall: true})
+		opts := sim.GenOpts{NumReqs: p.NumReqs, AllowDRAM: rng.Intn(3) == 0, AllowBanked: true, MaxDrivers: 3, RspStall: true}
+		backPressured := c.Index%8 == 5 // every eighth case: slow requesters throughout, so resets meet units whose Top port is full
+		if backPressured {
+			opts.MemKind = []string{"banked", "banked", "ideal", "dram"}[rng.Intn(4)]
+		}
+		cfg = sim.RandomStackCfg(rng, opts)
+		if backPressured {
+			for i := range cfg.Drivers {
+				cfg.Drivers[i].RspStallPct = 60 + 10*rng.Intn(4)
+			}
+			r.Count("cases_with_slow_requesters_throughout", 1)
+		}
 		cfg.WithCtrl = true
 		cfg.Tracing = rng.Intn(2) == 0
 		nUnits = len(cfg.Levels) + max(cfg.Mem.Count, 1)
